@@ -698,6 +698,8 @@ impl ConvContext {
                             }
                         }
                     }
+                } else if let Some(Statement::IfReset(ifreset)) = x.statements.first() {
+                    self.reset_values_by_elaboration(x, &ifreset.true_side);
                 }
                 process_statements(self, &main_stmts, &mut current)?;
                 for (vid, nets) in current {
@@ -753,6 +755,42 @@ impl ConvContext {
             // never synthesized.
             Declaration::External(_) => Ok(()),
             Declaration::Unsupported(_) | Declaration::Null => Ok(()),
+        }
+    }
+
+    /// Reset values of an `if_reset` branch that `extract_constant_assigns`
+    /// cannot read — array elements, struct members, bit selects, named
+    /// constants / parameters: lower the branch like any other statement list
+    /// and read back the constant each written bit ends up tied to. If any
+    /// written bit is not a constant the historical fallback stays (no reset
+    /// values at all). Cells created on the way are dead and removed by DCE.
+    fn reset_values_by_elaboration(&mut self, ff: &air::FfDeclaration, stmts: &[Statement]) {
+        let mut current = init_current_ff(self, ff);
+        let hold = current.clone();
+        if process_statements(self, stmts, &mut current).is_err() {
+            return;
+        }
+        let mut found: Vec<(usize, bool)> = Vec::new();
+        for (vid, nets) in &current {
+            let (Some(pre), Some(held)) = (self.ff_allocation.get(vid), hold.get(vid)) else {
+                continue;
+            };
+            for (bit, &net) in nets.iter().enumerate() {
+                if held.get(bit) == Some(&net) {
+                    continue; // not written by the reset branch
+                }
+                let Some(ff_idx) = pre.ff_indices.get(bit) else {
+                    continue;
+                };
+                match net {
+                    NET_CONST0 => found.push((*ff_idx, false)),
+                    NET_CONST1 => found.push((*ff_idx, true)),
+                    _ => return,
+                }
+            }
+        }
+        for (ff_idx, v) in found {
+            self.ffs[ff_idx].reset_value = v;
         }
     }
 
